@@ -475,6 +475,48 @@ func rulesExtract(p *Prog, r *Report, eng *Engine) {
 			if u, isNot := cond.(*ssa.UnOp); isNot && u.Op == token.NOT {
 				cond, pol = u.X, !pol
 			}
+			// the same test wrapped in a helper that reports "newly added": seen.add(item)
+			if hc, isCall := cond.(*ssa.Call); isCall && pol {
+				if mi, ki, isTI := testAndInsertHelper(p, hc.Call.StaticCallee()); isTI && mi < len(hc.Call.Args) && ki < len(hc.Call.Args) {
+					setArg := hc.Call.Args[mi]
+					if ct, isCT := setArg.(*ssa.ChangeType); isCT {
+						setArg = ct.X
+					}
+					mm, isMake := setArg.(*ssa.MakeMap)
+					switch {
+					case !isElemOf(hc.Call.Args[ki], al.Coll):
+						why = "the membership test does not use the current element as key"
+					case !isMake:
+						why = "the seen-set is not a fresh map"
+					default:
+						// the set is handed to nothing but this helper
+						only := true
+						for _, ref := range *mm.Referrers() {
+							switch x := ref.(type) {
+							case *ssa.ChangeType:
+								for _, r2 := range *x.Referrers() {
+									if r2 != ssa.Instruction(hc) {
+										if _, isDbg := r2.(*ssa.DebugRef); !isDbg {
+											only = false
+										}
+									}
+								}
+							case *ssa.DebugRef:
+							default:
+								if ref != ssa.Instruction(hc) {
+									only = false
+								}
+							}
+						}
+						if only {
+							ok = true
+						} else {
+							why = "the seen-set is used by something other than the test-and-insert helper"
+						}
+					}
+					continue
+				}
+			}
 			ex, isEx := cond.(*ssa.Extract)
 			if !isEx || ex.Index != 1 || pol {
 				why = "the guard is not 'element not yet seen'"
@@ -910,4 +952,82 @@ func buildsText(fn *ssa.Function) bool {
 		}
 	}
 	return false
+}
+
+// testAndInsertHelper: h(set map[K]V, key K) bool (receiver or plain parameters) that returns false without
+// writing when key is in set, and otherwise inserts exactly key and returns true. Returns the parameter
+// indices of the set and the key.
+func testAndInsertHelper(p *Prog, h *ssa.Function) (int, int, bool) {
+	if h == nil || !p.InModule(h) || len(h.Params) != 2 || len(h.Blocks) == 0 || h.Signature.Results().Len() != 1 || !isBoolType(h.Signature.Results().At(0).Type()) {
+		return 0, 0, false
+	}
+	mi, ki := -1, -1
+	for i, prm := range h.Params {
+		if _, ok := prm.Type().Underlying().(*types.Map); ok {
+			mi = i
+		} else {
+			ki = i
+		}
+	}
+	if mi < 0 || ki < 0 {
+		return 0, 0, false
+	}
+	var lk *ssa.Lookup
+	nUpd := 0
+	for _, b := range h.Blocks {
+		for _, in := range b.Instrs {
+			switch t := in.(type) {
+			case *ssa.Lookup:
+				if t.X != ssa.Value(h.Params[mi]) || t.Index != ssa.Value(h.Params[ki]) || !t.CommaOk || lk != nil {
+					return 0, 0, false
+				}
+				lk = t
+			case *ssa.MapUpdate:
+				if t.Map != ssa.Value(h.Params[mi]) || t.Key != ssa.Value(h.Params[ki]) {
+					return 0, 0, false
+				}
+				nUpd++
+			case *ssa.Store, ssa.CallInstruction:
+				return 0, 0, false
+			}
+		}
+	}
+	if lk == nil || nUpd != 1 {
+		return 0, 0, false
+	}
+	// the found edge returns false without the update; the other edge updates and returns true
+	for _, b := range h.Blocks {
+		ifi, ok := b.Instrs[len(b.Instrs)-1].(*ssa.If)
+		if !ok {
+			continue
+		}
+		ex, ok := ifi.Cond.(*ssa.Extract)
+		if !ok || ex.Tuple != ssa.Value(lk) || ex.Index != 1 {
+			return 0, 0, false
+		}
+		retConst := func(blk *ssa.BasicBlock) (bool, bool, bool) { // value, hasUpdate, ok
+			upd := false
+			for _, in := range blk.Instrs {
+				if _, isU := in.(*ssa.MapUpdate); isU {
+					upd = true
+				}
+			}
+			ret, ok := blk.Instrs[len(blk.Instrs)-1].(*ssa.Return)
+			if !ok || len(ret.Results) != 1 {
+				return false, upd, false
+			}
+			c, ok := ret.Results[0].(*ssa.Const)
+			if !ok || c.Value == nil {
+				return false, upd, false
+			}
+			return c.Value.String() == "true", upd, true
+		}
+		fv, fu, ok1 := retConst(b.Succs[0])
+		nv, nu, ok2 := retConst(b.Succs[1])
+		if ok1 && ok2 && !fv && !fu && nv && nu {
+			return mi, ki, true
+		}
+		return 0, 0, false
+	}
+	return 0, 0, false
 }
